@@ -22,6 +22,9 @@ RULE = ("cases = (scenario X, scenario Y, history of A on X, schedule of foreign
         "distinct by (X, Y, schedule).")
 
 
+_CONFIRM = [0]
+
+
 def norm(x):
     if isinstance(x, dict):
         return {str(k): norm(v) for k, v in x.items()}
@@ -78,6 +81,32 @@ def run_case(case, rep, record=True):
         modes = dict(case.get("modes") or {})
         modes["flat_actions"] = True
         render = bool(case.get("render", True))
+        specY, scnY = None, None
+
+        def build_y():
+            nonlocal specY, scnY
+            if scnY is None:
+                if case["y"] == "same":
+                    hy = walk.build_harness(case["x"], {})
+                else:
+                    hy = walk.build_harness(case["y"], {})
+                specY, scnY = hy.spec, hy.scn
+            return scnY
+        # ------------------------------------------------ model-referenced run: A'' next to other environments must
+        # behave as the reference model says a lone environment behaves
+        stage = "model"
+        f = model_run(case, with_foreign=True, build_y=build_y)
+        if record:
+            rep.count("model-referenced-runs")
+        if f is not None:
+            _CONFIRM[0] += 1
+            solo = solo_in_subprocess(case) if _CONFIRM[0] <= 8 else "SKIPPED (confirmation budget of this shard used up)"
+            if solo == "SOLO-OK":
+                raise Failure("C19:model:" + f.clause, f"next to other environments: {f.detail} -- the same history in a process of its own passes",
+                              bucket="C19:model:" + f.bucket)
+            if record:
+                rep.count("model-failure-also-alone(other property)" if solo.startswith("SOLO-FAIL") else "solo-confirmation-inconclusive")
+        stage = "setup"
         # ------------------------------------------------ reference: A alone
         hA = walk.build_harness(case["x"], modes)
         specX = hA.spec
@@ -108,22 +137,19 @@ def run_case(case, rep, record=True):
             rep.evaluated()
         # ------------------------------------------------ interleaved: A' with foreign operations
         stage = "interleaved"
-        specY, scnY = None, None
-
-        def build_y():
-            nonlocal specY, scnY
-            if scnY is None:
-                if case["y"] == "same":
-                    specY, scnY = specX, scnX
-                else:
-                    hy = walk.build_harness(case["y"], {})
-                    specY, scnY = hy.spec, hy.scn
-            return scnY
-        envA = sources.make_env(scnX, **modes)
         B = [None]
         third = []
         foreign_between = 0
         different = None
+        for fop in case.get("pre", []):
+            if fop[0] == "construct_B":
+                B[0] = sources.make_env(build_y(), **dict(fop[1]))
+            elif fop[0] == "third":
+                third.append(sources.make_env(build_y()))
+            foreign_between += 1
+            if record:
+                rep.count("foreign-before-construction:" + fop[0])
+        envA = sources.make_env(scnX, **modes)
 
         def check_view(i, why):
             v = view(envA, render)
@@ -207,6 +233,113 @@ def run_case(case, rep, record=True):
     return failed
 
 
+def do_foreign(fop, state, build_y, scnX):
+    """state: dict(B=env|None, third=[...])"""
+    name = fop[0]
+    if name == "construct_B":
+        state["B"] = sources.make_env(build_y(), **dict(fop[1]))
+    elif name == "reset_B" and state["B"] is not None:
+        state["B"].reset()
+    elif name == "step_B" and state["B"] is not None:
+        b = state["B"]
+        for j in range(fop[1]):
+            np.random.seed(fop[2] + j)
+            if hasattr(b.action_space, "n"):
+                b.step(int((fop[2] * 7919 + j * 104729) % b.action_space.n))
+            else:
+                b.action_space.seed(fop[2] + j)
+                b.step(b.action_space.sample())
+    elif name == "drop_B":
+        state["B"] = None
+    elif name == "third":
+        which = fop[1]
+        if which == "x":
+            state["third"].append(sources.make_env(scnX))
+        elif which == "y":
+            state["third"].append(sources.make_env(build_y()))
+        else:
+            import nasim
+            state["third"].append(sources.make_env(nasim.load_scenario(sources.shipped_path(which))))
+        state["third"] = state["third"][-2:]
+
+
+def model_run(case, with_foreign, build_y=None):
+    """Run the history of A on X against the reference model / documented
+    layout (oracles of C01-C03, C05, C07-C09), optionally with the foreign
+    operations of the case.  Returns the first Failure or None."""
+    from . import oracles as O
+    from .check_c09 import check_initial
+    from .check_c11 import check_mask
+
+    class _Null:
+        def nontriv(self, *a):
+            pass
+
+        def count(self, *a, **k):
+            pass
+    null = _Null()
+    fstate = dict(B=None, third=[])
+    try:
+        scnX = None
+        if with_foreign:
+            for fop in case.get("pre", []):
+                do_foreign(fop if fop[0] != "third" else ("third", "y"), fstate, build_y, None)
+        h = walk.build_harness(case["x"], {})
+        scnX = h.scn
+        check_initial(h, h.scn, null)
+        O.c03_reset(h, h.env.current_state.tensor, null, "initial state")
+        O.c08_initial(h, h.initial_obs, h.initial_tensor, null, "construction")
+
+        def on_rec(hh, rec, twin):
+            for orc in (O.c01, O.c02, O.c03, O.c05, O.c07, O.c08):
+                orc(hh, rec, twin, null)
+        sched = case["schedule"]
+        for i, op in enumerate(case["ops"]):
+            if with_foreign:
+                for fop in (sched[i] if i < len(sched) else []):
+                    do_foreign(fop, fstate, build_y, scnX)
+            if op[0] == "g":
+                continue
+            res = walk.run_history(h, [tuple(op)], on_rec, None, both_sides=False, do_gen=False)
+            check_mask(h, null, f"after {op}")
+            if res == "diverged":
+                return Failure("diverged", f"state diverges from the reference model: {h.diverged}", bucket="diverged")
+    except Failure as f:
+        return f
+    except Exception as e:
+        inside, where = engine.from_nasim(sys.exc_info()[2])
+        if not inside:
+            raise
+        return Failure("exception", f"{type(e).__name__}: {e} at {where}", bucket=f"exception:{type(e).__name__}@{where}")
+    return None
+
+
+def solo_worker(path):
+    import json
+    case = case_from_json(json.load(open(path)))
+    f = model_run(case, with_foreign=False)
+    print("SOLO-OK" if f is None else f"SOLO-FAIL {f.bucket}")
+
+
+def solo_in_subprocess(case):
+    import json, os, subprocess, tempfile
+    fd, path = tempfile.mkstemp(prefix="nvf_c19_", suffix=".json")
+    with os.fdopen(fd, "w") as fh:
+        json.dump(common.jsonable(case), fh)
+    env = dict(os.environ, PYTHONPATH=f"{common.VERIF}:{common.REPO}", PYTHONDONTWRITEBYTECODE="1")
+    try:
+        r = subprocess.run([sys.executable, "-c", "import sys; from nvf import check_c19; check_c19.solo_worker(sys.argv[1])", path],
+                           capture_output=True, text=True, env=env, timeout=600, cwd=common.VERIF)
+    except subprocess.TimeoutExpired:
+        return "TIMEOUT"
+    finally:
+        os.unlink(path)
+    for line in r.stdout.splitlines():
+        if line.startswith("SOLO-"):
+            return line
+    return "ERROR " + r.stderr[-300:]
+
+
 def benchmark_seed_independence(rep):
     import nasim
     from .check_c14 import scenario_fingerprint
@@ -263,6 +396,15 @@ def cases(draw, tier):
             if a not in d["sensitive_hosts"]:
                 cfg["value"] = draw(st.sampled_from([0, 1, 3, -2]))
         y = {"kind": "doc", "doc": d, "flow": None}
+    elif ky <= 6 and x["kind"] == "doc":
+        # same address bounds and the same name SETS, declared in a different order
+        import copy
+        d = copy.deepcopy(x["doc"])
+        for sec in ("os", "services", "processes"):
+            d[sec] = list(reversed(d[sec])) if len(d[sec]) > 1 and draw(st.booleans()) else d[sec]
+        if d["os"] == x["doc"]["os"] and d["services"] == x["doc"]["services"] and len(d["services"]) > 1:
+            d["services"] = list(reversed(d["services"]))
+        y = {"kind": "doc", "doc": d, "flow": None}
     else:
         y = draw(engine.source_strategy(tier, dict(extras=True), weights=(10, 5, 5), gen_max_hosts=10))
     ops = draw(st.lists(engine.op_strategy(resets=True, gens=False), min_size=4, max_size=20))
@@ -278,7 +420,12 @@ def cases(draw, tier):
         else:
             sched.append([])
     modes = draw(st.fixed_dictionaries({"fully_obs": st.booleans(), "flat_obs": st.booleans()}))
-    return dict(x=x, y=y, ops=ops, schedule=sched, modes=modes, render=draw(st.integers(0, 2)) == 0)
+    pre = []
+    if draw(st.booleans()):
+        pre.append(("construct_B", {"fully_obs": False, "flat_actions": True, "flat_obs": True}))
+        if draw(st.integers(0, 3)) == 0:
+            pre.append(("third", "y"))
+    return dict(x=x, y=y, ops=ops, schedule=sched, modes=modes, render=draw(st.integers(0, 2)) == 0, pre=pre)
 
 
 class _Runner:
@@ -302,6 +449,7 @@ def case_from_json(c):
         c["y"] = engine.case_from_json(dict(source=c["y"], ops=[]))["source"]
     c["ops"] = [tuple(o) for o in c["ops"]]
     c["schedule"] = [[tuple(f) for f in s] for s in c["schedule"]]
+    c["pre"] = [tuple(f) for f in c.get("pre", [])]
     return c
 
 
